@@ -799,8 +799,71 @@ pub fn spawn_token_s(name: String) -> usize {
     s.th.len() - 1
 }
 
+/// OS thread ids of the registered threads (for the blocked-in-system-call watchdog)
+static OS_TID: [std::sync::atomic::AtomicI32; SB_THREADS] = [const { std::sync::atomic::AtomicI32::new(0) }; SB_THREADS];
+
+fn record_os_tid(token: usize) {
+    if token < SB_THREADS {
+        OS_TID[token].store(unsafe { libc::syscall(libc::SYS_gettid) } as i32, Ordering::SeqCst);
+    }
+}
+
+/// a thread of the child that is not under the scheduler: when no schedule point has been
+/// executed for 3 s of real time and the thread that holds the baton sleeps inside a socket
+/// system call, a worker is blocked for real in the kernel - the runtime has handed a
+/// blocking file descriptor to its non-blocking io path. (a thread that is merely starved of
+/// CPU is runnable and not inside such a call; the harness itself never blocks in these
+/// calls.) this is a verdict, not a time-out: without it the case would only be killed by
+/// the parent's wall clock and counted as inconclusive
+pub fn start_watchdog() {
+    std::thread::spawn(|| {
+        let mut last = u64::MAX;
+        let mut since = std::time::Instant::now();
+        loop {
+            std::thread::sleep(std::time::Duration::from_millis(250));
+            let now = SB_STEP.load(Ordering::Relaxed);
+            if now != last {
+                last = now;
+                since = std::time::Instant::now();
+                continue;
+            }
+            if since.elapsed() < std::time::Duration::from_secs(3) {
+                continue;
+            }
+            let cur = CUR.load(Ordering::SeqCst);
+            let tid = if cur < SB_THREADS { OS_TID[cur].load(Ordering::SeqCst) } else { 0 };
+            if tid == 0 {
+                continue;
+            }
+            let sys = std::fs::read_to_string(format!("/proc/self/task/{tid}/syscall")).unwrap_or_default();
+            let stat = std::fs::read_to_string(format!("/proc/self/task/{tid}/stat")).unwrap_or_default();
+            let state = stat.rsplit(')').next().and_then(|r| r.split_whitespace().next()).unwrap_or("?").to_string();
+            let nr: i64 = sys.split_whitespace().next().and_then(|x| x.parse().ok()).unwrap_or(-1);
+            let name = match nr {
+                0 => "read",
+                1 => "write",
+                19 => "readv",
+                20 => "writev",
+                42 => "connect",
+                43 => "accept",
+                288 => "accept4",
+                44 => "sendto",
+                45 => "recvfrom",
+                46 => "sendmsg",
+                47 => "recvmsg",
+                _ => "",
+            };
+            if state == "S" && !name.is_empty() {
+                out(&format!("DETAIL thread {cur} (os tid {tid}) holds the baton and has been sleeping in {name}() for 3 s of real time: {}", sys.trim()));
+                die(1, &format!("VERDICT violation worker-blocked-in-system-call:{name}"));
+            }
+        }
+    });
+}
+
 pub fn thread_begin(token: usize) {
     TID.with(|t| t.set(token));
+    record_os_tid(token);
     let mut g = lock();
     let cv = g.as_ref().unwrap().th[token].cv.clone();
     while g.as_ref().unwrap().cur != token {
@@ -976,6 +1039,7 @@ pub fn init(max_steps: u64) {
         progress_mark: 0,
     });
     TID.with(|t| t.set(0));
+    record_os_tid(0);
     drop(g);
     may::verif::install(&HOOKS);
 }
